@@ -383,3 +383,52 @@ def run(ctx, chk):
     sub = Sub(chk, "C07-e", lambda r: r == "C10-a/per-await-budget" or r == "C10-a/await-bounded",
               instance_filter=lambda i: "into_stream_with_retry" in str(i))
     rules_c10.run(ctx, sub)
+    limit_source(ctx, chk)
+    # a token is opened only by a reservation that succeeded: the abort arms of begin_transaction never end in Ok (C20)
+    import rules_c20
+    sub20 = Sub(chk, "C07-c", lambda r: r.startswith("C20/") and r != "C20/nested-abort-propagates",
+                instance_filter=lambda i: str(i).startswith("begin_transaction"))
+    rules_c20.run(ctx, sub20)
+    chk.floor("reservation abort-arm obligations (shared with C20)", sub20.count, 3)
+
+
+def limit_source(ctx, chk):
+    """"never more than the configured maximum": the limit the guard compares with is the caller's configuration value as it
+    was handed in - `Feig::new` stores `config.transactions_max_num` of its own parameter, nothing computed from it, nothing
+    read back from a component that may have normalised it (a 0 replaced by a default opens a token where none is allowed)."""
+    import pathsym as ps
+    crate = ctx.crate("zvt_feig_terminal")
+    outer = crate.bodies.get(FEIG + "new")
+    body = crate.bodies.get(FEIG + "new::{closure#0}") or outer
+    if not chk.require(body is not None, "C07-b/limit-source", "Feig::new", "constructor not found", "", nontrivial=False):
+        return
+    A = "zvt_feig_terminal::feig::Feig"
+    found = []
+    for i in sorted(body.reachable(0)):
+        for st in body.blocks[i]["stmts"]:
+            if st["s"] == "assign" and st["rv"]["r"] == "agg" and st["rv"].get("kind") == "adt" and st["rv"].get("n") == A:
+                found.append((i, st))
+    if not chk.require(len(found) == 1, "C07-b/limit-source", "Feig::new", "expected one construction of Feig, found %d" % len(found), "", body.sp()):
+        return
+    i, st = found[0]
+    fields = st["rv"].get("fields") or []
+    if not chk.require("transactions_max_num" in fields, "C07-b/limit-source", "Feig::new", "field transactions_max_num not initialised", "",
+                       body.sp()):
+        return
+    op = st["rv"]["ops"][fields.index("transactions_max_num")]
+    pe = ps.PathEval(body, {})
+    ok = True
+    why = ""
+    for path in ps.simple_paths(body, 0, i)[:16]:
+        env, _ = pe.run(path + [i] if path[-1] != i else path)
+        e = ps.norm(pe.operand(op, env))
+        root, names = ps.field_chain(e)
+        # async fn: the parameter is the coroutine's captured `config` (upvar 0); sync: parameter 1
+        is_param = root[0] == "pre" or (root[0] == "field" and ps.field_chain(root)[0][0] == "pre")
+        if not (names[-1:] == ["transactions_max_num"] and not any(x[0] == "call" for x in ps.walk(e)) and
+                not any(x[0] == "bin" for x in ps.walk(e)) and is_param):
+            ok = False
+            why = ps.show(e)[:100]
+    chk.require(ok, "C07-b/limit-source", "Feig::new",
+                "the stored limit is %s, not the transactions_max_num of the configuration handed in" % why,
+                "config.transactions_max_num", body.sp())
